@@ -1,6 +1,6 @@
 # Contracts for the reference-citation extractors of eyecite/find.py  (C19)
 import z3
-from pyvc.values import Obj, SV, INT, BOOL, STR, OBJ, SEQ, class_of, strval, TRUE, FALSE
+from pyvc.values import Obj, SV, INT, BOOL, STR, OBJ, SEQ, class_of, strval, TRUE, FALSE, fresh_name, ForAllP
 from pyvc.engine import And, Or, Not, Implies, I
 
 assumed("utils.is_valid_name",
@@ -25,3 +25,95 @@ contract("find.extract_pincited_reference_citations",
 
 loop("find.extract_pincited_reference_citations", 1,
     invariant={"refs_ok": "reference_citations is not None and forall(lambda j: implies(0 <= j and j < len(reference_citations), " + REF_OK.format(r="reference_citations[j]") + "))"})
+
+
+# ------------------------------------------------------------------------------------------------ markup-derived references
+
+
+def _upd_of(u):
+    # the SpanUpdater class invariant (contracts/annotate.py: upd_clauses) for the updater `u`
+    cl = shared["upd_clauses"](f"{u}.offsets", f"{u}.updaters", f"{u}.posb", f"{u}.amt", f"{u}.len_a", f"{u}.len_b")
+    return f"{u} is not None and alive({u}) and isinstance({u}, SpanUpdater) and " + " and ".join(f"({v})" for v in cl.values())
+
+
+@spec("upd_val")
+def _upd_val(e, st, u, off, kind):
+    """the value SpanUpdater.update(u, off, bisect_<kind>) returns (functional contract of update)"""
+    k = SV(__import__("pyvc.values", fromlist=["Ty"]).Ty("func"), None, tag=("builtin", "bisect_left" if kind.v.as_long() == 0 else "bisect_right"))
+    return SV(INT, e.functional_app(st, "annotate.SpanUpdater.update", [u, off, k]))
+
+
+P2M, M2P = "document.plain_to_markup", "document.markup_to_plain"
+DOC_WF = ("document is not None and alive(document) and document.plain_text is not None "
+          f"and implies({P2M} is not None, {_upd_of(P2M)} and {P2M}.len_a == len(document.plain_text) and implies(document.markup_text is not None, {P2M}.len_b == len(document.markup_text))) "
+          f"and implies({M2P} is not None, {_upd_of(M2P)} and {M2P}.len_b == len(document.plain_text) and implies(document.markup_text is not None, {M2P}.len_a == len(document.markup_text)))")
+# ROUNDTRIP (assumed of the two independently computed diffs; see checks/table.py C19 assumptions): a markup position at or after the
+# image of plain offset p translates back to a plain offset at or after p
+ROUNDTRIP = (f"implies({P2M} is not None and {M2P} is not None and document.markup_text is not None, "
+             "forall(lambda p, q: implies(0 <= p and p <= len(document.plain_text) and upd_val(document.plain_to_markup, p, 1) <= q and q <= len(document.markup_text), "
+             "upd_val(document.markup_to_plain, q, 0) >= p)))")
+
+MREF_PARTS = {
+    "shape": "{r} is not None and alive({r}) and {r}.token is not None and alive({r}.token) "
+             "and {r}.span_start is not None and {r}.span_end is not None and {r}.full_span_start is not None and {r}.full_span_end is not None "
+             "and {r}.token.start == {r}.span_start and {r}.token.end == {r}.span_end",
+    # offsets valid in the cleaned text
+    "in_text": "0 <= {r}.span_start and {r}.span_start <= len(document.plain_text) and 0 <= {r}.span_end and {r}.span_end <= len(document.plain_text) "
+               "and 0 <= {r}.full_span_start and {r}.full_span_start <= len(document.plain_text) and 0 <= {r}.full_span_end and {r}.full_span_end <= len(document.plain_text)",
+    # derived from a full case citation that starts at or before it
+    "after_full": "0 <= ghost.src[{j}] and ghost.src[{j}] < len(citations) and isinstance(citations[ghost.src[{j}]], FullCaseCitation) "
+                  "and {r}.span_start >= citations[ghost.src[{j}]].span()[0] and {r}.full_span_start >= citations[ghost.src[{j}]].span()[0]",
+}
+
+
+def _mref(seq, head):
+    return dict({"len": f"{seq} is not None and {head}"},
+                **{k: f"forall(lambda j: implies(0 <= j and j < len({seq}), " + v.format(r=f"{seq}[j]", j="j") + "))" for k, v in MREF_PARTS.items()})
+
+
+contract("find.find_reference_citations_from_markup",
+    types={"document": "obj<Document>", "citations": "seq[obj<CitationBase>]"}, returns="seq[obj<ReferenceCitation>]", noraise=True, prop="C19",
+    requires={"doc": DOC_WF,
+              "roundtrip": ROUNDTRIP,
+              "cits": "citations is not None and forall(lambda k: implies(0 <= k and k < len(citations), cit_wf(citations[k]) and alive(citations[k]) and alive(citations[k].token) and citations[k].token.start is not None "
+                      "and citations[k].token.end is not None and 0 <= citations[k].span()[0] and citations[k].span()[0] < len(document.plain_text)))"},
+    locals_types={"references": "seq[obj<ReferenceCitation>]", "regexes": "seq[str]"},
+    ghost={"src": "seq[int]", "cur": "int"},
+    ghost_init={"g0": "len(ghost.src) == 0"},
+    ensures=_mref("result", "len(result) <= len(ghost.src)"))
+
+loop("find.find_reference_citations_from_markup", 1,
+    invariant=_mref("references", "len(ghost.src) == len(references)"))
+loop("find.find_reference_citations_from_markup", 2,
+    invariant={"rx": "regexes is not None"})
+loop("find.find_reference_citations_from_markup", 3,
+    invariant=_mref("references", "len(ghost.src) == len(references)"))
+ghost_code("find.find_reference_citations_from_markup", "loop1:body_start", "ghost.cur = k")
+ghost_code("find.find_reference_citations_from_markup", "after:Expr#3", "ghost.src = seq_append(ghost.src, ghost.cur)")
+
+MARKUP_REF_SKELETON = ["<(?:", ")>\\s*(", ")[:;.,\\s]*</(?:", ")>"]
+
+
+@spec("on_finditer")
+def _markup_ref_group1(e, st, ms, pat, text):
+    """E-RE-GROUP1 for the style-tag regex of find_reference_citations_from_markup: its literal skeleton is
+    <(?:TAGS)>\\s*(ALTS)[:;.,\\s]*</(?:TAGS)> -- the only top-level capturing group is neither optional nor inside an
+    alternation, so it participates in every match.  The skeleton is re-read from the AST on every run; if it differs the
+    fact is not assumed."""
+    import ast as _ast
+    if e.fn is None or e.fn.qname != "find.find_reference_citations_from_markup":
+        return
+    lit = None
+    for n in _ast.walk(e.fn.node):
+        if isinstance(n, _ast.Assign) and isinstance(n.targets[0], _ast.Name) and n.targets[0].id == "regex" and isinstance(n.value, _ast.JoinedStr):
+            lit = [v.value for v in n.value.values if isinstance(v, _ast.Constant)]
+    if lit != MARKUP_REF_SKELETON:
+        return
+    from pyvc.builtins_model import m_ghas, S
+    j = z3.Int(fresh_name("g1j"))
+    st.assume(ForAllP([j], Implies(And(j >= 0, j < ms.v.len), m_ghas(z3.Select(ms.v.arrs[0], j), S("#1"))), patterns=[z3.Select(ms.v.arrs[0], j)]))
+    e.trust("E-RE-GROUP1: group 1 of the style-tag regex <(?:em|i)>\\s*(NAMES)[:;.,\\s]*</(?:em|i)> participates in every match (skeleton re-read from the AST)")
+
+# lemma steps: the two instances of ROUNDTRIP the invariant needs
+ghost_code("find.find_reference_citations_from_markup", "after:Assign#7", "assert full_start_in_plain >= citation.span()[0], 'roundtrip_full_start'")
+ghost_code("find.find_reference_citations_from_markup", "after:Assign#9", "assert start_in_plain >= citation.span()[0], 'roundtrip_start'")
